@@ -35,12 +35,19 @@ def size_eq(ats, param='in_size'):
     return None, None
 
 
-def effects(fn):
-    """protocol effects of a handler: mutator calls on the connection state and writes to the output PDU"""
+def effects(fn, facts=None, depth=1):
+    """protocol effects of a handler: mutator calls on the connection state and writes to the output PDU
+    (one level of same-class helper functions is followed)"""
     out = []
+    if facts is not None and depth > 0 and fn.cls:
+        for c in fn.body.calls():
+            if c.cn and c.cn != fn.name and not c.cn.startswith('error_response'):
+                for g in [x for x in facts.fns(fn.cls + '::' + c.cn) if x.kind in ('pattern', 'plain')][:1]:
+                    if effects(g, None, 0):
+                        out.append(('%s() [helper with protocol effects]' % c.cn, c))
     state_param = fn.params[-1]['n'] if fn.params else 'state'
     for c in fn.body.calls():
-        if c.cn in STATE_MUTATORS and is_name(base_object(c), state_param):
+        if (c.cn in STATE_MUTATORS or (c.cn == 'remote_dhkey_check' and c.args())) and is_name(base_object(c), state_param):
             out.append(('state.%s()' % c.cn, c))
         if c.cn in ('copy', 'copy_n') and c.args() and any(mentions(a, 'output') for a in c.args()[-1:]):
             out.append(('copy -> output', c))
@@ -51,3 +58,42 @@ def effects(fn):
         elif is_name(t, 'out_size') and cval(val) != 0:
             out.append(('out_size = %s' % (val.text() if val is not None else ''), st))
     return out
+
+
+def param_sources(facts, fn, pname):
+    """argument expressions passed for parameter `pname` at every call site of fn inside its class: list of (caller, arg node)"""
+    idx = next((i for i, p in enumerate(fn.params) if p['n'] == pname), None)
+    out = []
+    if idx is None:
+        return out
+    for g in facts.functions:
+        if g.cls == fn.cls and g.kind == fn.kind:
+            for c in g.body.calls(fn.name):
+                if len(c.args()) == len(fn.params):
+                    out.append((g, strip_casts(c.args()[idx])))
+    return out
+
+
+def ea_verified(facts, fn, node):
+    """node executes only after std::equal(calc_ea.., X) held, where calc_ea = f6(..) and X is the DHKey check received from the central:
+    input-derived, or a parameter that every call site feeds with &input[1] / the stored copy state.remote_dhkey_check() (which is only written from input)"""
+    for l, op, r in guard_atoms(fn, node):
+        if op == '!=' and cval(r) == 0 and not isinstance(l, int) and strip_casts(l).is_call('equal'):
+            c = strip_casts(l)
+            a = [strip_casts(x) for x in c.args()]
+            if len(a) != 3 or not (mentions(a[0], 'calc_ea') and mentions(a[1], 'calc_ea')):
+                continue
+            init = local_init(fn, 'calc_ea')
+            if init is None or not init.is_call('f6'):
+                continue
+            x = a[2]
+            if mentions(x, 'input'):
+                return True
+            if x.k in REF_KINDS and x.n in {p['n'] for p in fn.params}:
+                srcs = param_sources(facts, fn, x.n)
+                if srcs and all(mentions(s, 'input') or any(cc.cn == 'remote_dhkey_check' and not cc.args() for cc in s.calls()) for g, s in srcs):
+                    # the stored copy must itself only be written from the received PDU
+                    setters = [cc for g in facts.functions if g.cls == fn.cls for cc in g.body.calls('remote_dhkey_check') if cc.args()]
+                    if all(mentions(cc.args()[0], 'input') for cc in setters):
+                        return True
+    return False
